@@ -545,13 +545,12 @@ struct Srv
     return collect();
   }
 
-  // the engine's close callback (HttpServer::start() wires `_sessionInfo.erase(sid); _upgradedSessions.erase(sid)` under
-  // _sessionMutex to Transport::onClose; the scripted engine has no callback of its own): the queued close LANDS here
+  // the engine's close callback: HttpServer::start() wires Transport::onClose to the member handleSessionClosed(sid) (erases
+  // _sessionInfo / _upgradedSessions / _upgradePending under _sessionMutex, then the onSessionClosed hook); the scripted engine
+  // has no callback of its own - the queued close LANDS here, through the real member
   std::string closed()
   {
-    std::lock_guard<std::mutex> g(s->_sessionMutex);
-    s->_sessionInfo.erase(sid);
-    s->_upgradedSessions.erase(sid);
+    s->handleSessionClosed(sid);
     return "ok";
   }
 
@@ -574,6 +573,7 @@ struct Srv
       s->_sessionInfo.erase(sid);
       s->_sessionInfo[sid] = HttpServer::SessionInfo{};
       s->_upgradedSessions.clear();
+      s->_upgradePending.clear();
     }
     std::lock_guard<std::mutex> g(mx);
     workerEvs.clear();
